@@ -13,7 +13,7 @@ TITLE = "Geodesic primitives agree with spherical geometry"
 MANIFEST = {
     "text": "A complete finite lattice of anchors (8 latitudes x 6 longitudes; thorough 16 x 12), 12 (24) bearings, 5 (10) segment "
             "lengths from 0.1 m to 5 km and 30 (60) query offsets per segment is executed on the real dist_latlon routines "
-            "(distance, bearing, destination, point-to-segment in both orientations, segment-to-segment at 6 relative placements in "
+            "(distance, bearing, destination, point-to-segment in both orientations, segment-to-segment at 8 relative placements in "
             "4 orientations, box_around_point with 18 boundary probes) and compared with an independent 3-D vector computation.",
     "note": "Trusted: mc/refgeom.py (unit vectors, atan2 angles), CPython math. A lattice of the continuum, chosen to reach every "
             "branch (before/after/inside the segment, both signs of cross-track, zero-length segments); poles and antimeridian excluded "
@@ -52,7 +52,7 @@ def axes(tier):
 def space(tier):
     lats, lons, nb, lens, fas, fcs = axes(tier)
     return {"latitudes": lats, "longitudes": lons, "bearings": nb, "segment_lengths_m": lens,
-            "along_offsets": fas, "cross_offsets": fcs, "segment_pair_placements": 6, "box_radii_m": [10, 100, 1000, 20000]}
+            "along_offsets": fas, "cross_offsets": fcs, "segment_pair_placements": 8, "box_radii_m": [10, 100, 1000, 20000]}
 
 
 def cases(tier):
@@ -159,7 +159,7 @@ def chk_s2s(f1, f2, t1, t2, lat, kind):
             continue
         if abs(d2 - d) > 2 * tol:
             v.append(f"distance changes from {d} to {d2} when end points are swapped")
-        elif kind in ("skew", "cross", "touch"):
+        elif kind in ("skew", "cross", "touch", "skew-beyond-end", "skew-before-start"):
             # unique closest pair: points and relative positions must follow the swap
             if rg.sph_dist(pf, pf2) > 0.5 + 2 * tol or rg.sph_dist(pt, pt2) > 0.5 + 2 * tol:
                 v.append(f"closest points move when end points are swapped: {(pf, pt)} vs {(pf2, pt2)}")
@@ -177,6 +177,12 @@ def placements(a, b, brg, L):
     yield "parallel", p1, rg.sph_dest(p1, brg, 1.1 * L)
     yield "collinear-overlap", rg.sph_dest(a, brg, 0.6 * L), rg.sph_dest(a, brg, 1.7 * L)
     yield "collinear-disjoint", rg.sph_dest(a, brg, 1.5 * L), rg.sph_dest(a, brg, 2.5 * L)
+    # the second segment passes in front of the far end of the first: closest pair = end point b and an interior point
+    e1 = rg.sph_dest(rg.sph_dest(a, brg, 1.3 * L), brg + 90.0, -0.5 * L)
+    yield "skew-beyond-end", e1, rg.sph_dest(e1, brg + 90.0, 1.2 * L)
+    # ... and behind its start: closest pair = end point a and an interior point
+    e2 = rg.sph_dest(rg.sph_dest(a, brg, -0.4 * L), brg + 80.0, -0.6 * L)
+    yield "skew-before-start", e2, rg.sph_dest(e2, brg + 80.0, 1.5 * L)
 
 
 def chk_box(a, r):
